@@ -255,4 +255,36 @@ CHECKS = {
         note=_NOTE + " Not driven: CL, PS/mPS, vBNN-IBS, PoK/SoK, ring and homomorphic signatures (listed in the evidence under "
              "not_covered). The hash-to-curve value inside cp_bls_ver is bound from the execution (its correctness is C13).",
         technique="TLC model checking of signature guards and padding scanners + TLC trace validation of recorded sign/verify calls against TLA+ scheme definitions"),
+    "C11": dict(
+        text="The affine chord-and-tangent law over a tower level (lib/CurveX over lib/Tower) is model-checked to be a group law on every "
+             "nonsingular curve over F_9 (all triples) and on 100/56 curves over F_25/F_49 (MCCurveX); the balanced double-and-add evaluator "
+             "equals the linear definition and the k-fold repeated addition. In tiny BN (p=19, r=13) and BLS12 (p=37, r=13) worlds TLC checks "
+             "on ALL points of the sextic twist that the untwist-Frobenius-twist map, with constants derived as ep2_curve_set_twist derives "
+             "them, is an additive endomorphism satisfying psi^2 - [t]psi + [p] = 0, acts as [p^i] on the order-r subgroup, and that the "
+             "cofactor formulas of ep2_mul_cof as coded send every point into the subgroup (MCFrbTwist; a wrong Frobenius exponent is refuted). "
+             "Every ep2 call executed by drv_ep2 (group law in all coordinate systems with O in five forms, equal/opposite operands, "
+             "non-normalised z; every mul / mul_fix with its pre / mul_sim / sim_lot / mul_dig routine with the C03 corner scalars up to "
+             "1024 bits; ep2_frb powers 1..3; ep2_mul_cof on curve points outside the subgroup, small-order points) on the BN_P256 and "
+             "SM9_P256 twists (thorough: BLS12-381) is validated by TLC through the refinement mapping from raw Montgomery F_p2 coordinates "
+             "+ tag: the abstract output must equal the CurveX-defined result, the Frobenius must equal [p^i mod r]Q on subgroup points, "
+             "the cofactor image must lie on the curve and be annihilated by r, inputs unchanged under every alias pattern.",
+        ref="§4 C11",
+        note=_NOTE + " Curves over cubic, quartic and octic extensions (ep3/ep4/ep8) and the slope variants ep2_add_slp_basic/ep2_dbl_slp_basic "
+             "are not driven; the four-dimensional GLS recoding is judged through the multiplication results only.",
+        technique="TLC model checking of the F_p2 group law and of the twist endomorphism / cofactor formulas in tiny pairing-friendly worlds + TLC trace validation of recorded ep2 calls"),
+    "C12": dict(
+        text="Validity is specified by definition: x is not the identity, lies on the curve (lib/Curve, lib/CurveX) resp. satisfies x^r = 1 in "
+             "F_p12 with r | Phi12(p) checked per event, and [r]x = identity, evaluated by double-and-add / square-and-multiply over BigNat. "
+             "Every g1/g2/gt_is_valid verdict on members, identities, zero, off-curve coordinates, random curve / twist points, cofactor-part "
+             "and small-order points, member + small-order points, arbitrary F_p12 elements, cyclotomic elements of order not dividing r and "
+             "products with members must agree; flagged events also verify the intended input class with x^Phi12(p). Every g1/g2 "
+             "multiplication form (plain, _sec, _any, _gen, _fix, _dig, _sim, _sim_gen, _sim_lot 0..16 terms, _sim_dig) and gt_exp form "
+             "(plain, _sec, _gen, _dig, _sim) must return the k-fold group operation, computed in F_p12 = F_p2[v]/(v^3 - xi)[w]/(w^2 - v) by "
+             "generic quotient-ring arithmetic, for scalars 0, +-1, 2, r-1, r, r+1, 2r, negative, random and longer than r, on BN_P256 and "
+             "SM9_P256 (thorough: BLS12-381, cofactor > 1 in G1 and G2). In the tiny BN and BLS12 worlds TLC checks on all points of the "
+             "twist that the endomorphism equation g2_is_valid evaluates holds exactly for the points annihilated by r (MCFrbTwist).",
+        ref="§4 C12",
+        note=_NOTE + " GT-input class claims are verified only on flagged events; the G1 and GT endomorphism shortcuts are judged by verdict "
+             "only (no tiny-world model of them). Jacobian-tagged operands in the PROJC build are excluded from g1/g2_is_valid (misuse).",
+        technique="TLC trace validation of recorded pc calls against definitional validity and exponentiation + TLC model checking of the membership equation in tiny pairing-friendly worlds"),
 }
